@@ -5,6 +5,7 @@ pub mod c04;
 pub mod c05;
 pub mod c06;
 pub mod c07;
+pub mod c08;
 pub mod c10;
 pub mod c11;
 pub mod c12;
@@ -26,6 +27,8 @@ pub fn instances(prop: &str, tier: &str, seed: u64) -> Vec<String> {
         "C05" => c05::instances(tier),
         "C06" => c06::instances(tier, seed),
         "C07" => c07::instances(tier, seed),
+        "C08" => c08::instances(tier),
+        "C09" => c08::instances_c09(tier),
         "C10" => c10::instances(tier),
         "C11" => c11::instances(tier),
         "C12" => c12::instances(tier),
@@ -63,6 +66,8 @@ fn body_inner(prop: &str, inst: &str) {
         "C05" => c05::body(inst),
         "C06" => c06::body(inst),
         "C07" => c07::body(inst),
+        "C08" => c08::body(inst),
+        "C09" => c08::body_c09(inst),
         "C10" => c10::body(inst),
         "C11" => c11::body(inst),
         "C12" => c12::body(inst),
